@@ -8,37 +8,10 @@
 #include <stdarg.h>
 #include <stdlib.h>
 #include "harness.h"
-/* exact vasprintf model for the only formats hex() uses: a sequence of "%08X" conversions (PRIX32 == "X") of 32-bit values:
- * always exactly 8 upper-case hex digits each. Anything else is an assertion failure. */
-#ifdef VERIF_NATIVE_REAL
-int vasprintf(char** outp, const char* fmt, va_list va_in) {
-  va_list va;
-  va_copy(va, va_in);
-#else
-uint32_t X_vasprintf(uint8_t* outp_, uint8_t* fmt_, uint8_t* va_) {
-  char** outp = (char**)outp_;
-  const char* fmt = (const char*)fmt_;
-  va_list va;
-  va_copy(va, *(va_list*)va_);
-#endif
-  char* buf = (char*)malloc(72);
-#ifdef VERIF_CBMC
-  __CPROVER_assume(buf != 0);
-#endif
-  unsigned n = 0, i = 0;
-  while (fmt[i]) {
-    int ok = fmt[i] == '%' && fmt[i + 1] == '0' && fmt[i + 2] == '8' && fmt[i + 3] == 'X' && n + 8 < 72;
-    ASSERT(ok, "UNMODELLED printf format");
-    ASSUME(ok);
-    uint32_t v = va_arg(va, uint32_t);
-    for (int k = 7; k >= 0; k--) { unsigned d = (v >> (4 * k)) & 15u; buf[n++] = (char)(d < 10 ? '0' + d : 'A' + d - 10); }
-    i += 4;
-  }
-  buf[n] = 0;
-  *outp = buf;
-  va_end(va);
-  return n;
-}
+/* vasprintf = the shared exact hex model engine/rt/stub_printf.h (literals, %[0][width]X ...: zero- AND space-padded widths, so a
+ * changed format specifier in hex() is decided, not reported as unmodelled); 64 hex digits + NUL fit VERIF_PRINTF_CAP. */
+#define VERIF_PRINTF_CAP 72
+#include "stub_printf.h"
 int64_t w_md5(uint8_t* data, uint64_t n, uint32_t hex, uint32_t from_string, uint8_t* out, uint64_t cap);
 int64_t w_sha1(uint8_t* data, uint64_t n, uint32_t hex, uint32_t from_string, uint8_t* out, uint64_t cap);
 int64_t w_sha256(uint8_t* data, uint64_t n, uint32_t hex, uint32_t from_string, uint8_t* out, uint64_t cap);
